@@ -33,7 +33,7 @@ RULE = ("seeded scenarios: objects handled by a first incarnation, then stop/kil
 TRUSTED = c02.TRUSTED
 ASSUMPTIONS = ["filters (`registries.match`) enter the model as the observed per-handler match result (C15's subject)"]
 
-F9_SIG = {"site": "process_changing_cause", "shape": "completed resume handler re-run after its finished record was purged in an open cycle"}
+F9_SIG = {"site": "process_changing_cause", "shape": "completed resume handler re-run after its finished record was purged in an open cycle in which the handler was not selected"}
 
 
 def gen_scenario(rng: Any, i: int) -> dict:
@@ -123,6 +123,7 @@ def oracle(ctx: Ctx, sc: dict, tr: dict) -> None:
         t0, t1 = calls[0]["t"], calls[1]["t"]
         # classify: was the finished record dropped in an open cycle in between (the known F9 shape)?
         dropped = False
+        dropped_while_selected = False
         for cyc in tr["cycles"]:
             p = cyc.get("pcc")
             if not p or cyc["inc"] != inc or cyc["uid"] != uid or not (t0 <= cyc["t0"] <= t1) or "P_after" not in p:
@@ -130,8 +131,14 @@ def oracle(ctx: Ctx, sc: dict, tr: dict) -> None:
             before = p["P"].get(hid)
             if before and (before["success"] or before["failure"]) and p["P_after"].get(hid) is None \
                     and not p.get("memory_fully_handled_once"):
-                dropped = True
-        sig = F9_SIG if dropped else {"site": "process_changing_cause", "shape": "resume handler completed twice in one process"}
+                if hid in p["selected"]:
+                    dropped_while_selected = True
+                else:
+                    dropped = True
+        sig = (F9_SIG if dropped and not dropped_while_selected else
+               {"site": "process_changing_cause", "shape": "finished record of a still-selected resume handler lost in an open cycle"}
+               if dropped_while_selected else
+               {"site": "process_changing_cause", "shape": "resume handler completed twice in one process"})
         ctx.oracle_fail(f"resume handler {hid} ran to completion {len(calls)} times for object {uid} in incarnation {inc}",
                         {"scenario": sc, "calls": calls[:3]}, sig)
     # resume handlers never for objects first seen via a watch event (created while running)
